@@ -147,8 +147,7 @@ def LosslessRun (inp : List Nat) (toks : List Tok) (k : EndKind) (errRaw tail : 
   (errRaw = [] ∨ openTagLike errRaw = true) ∧
   (k = .eof → tail = [])
 
-/-- MaxBuf clause on a recorded run (with the excluded region of the known
-finding: comment tokens starting `<!` may exceed the limit by at most 2). -/
+/-- MaxBuf clause on a recorded run. -/
 def BoundedRun (mb : Nat) (toks : List Tok) (errRaw : List Nat) : Prop :=
   mb > 0 → (∀ t ∈ toks, t.raw.length ≤ rawBound mb t ∧ t.cap ≤ capBound mb) ∧ errRaw.length ≤ mb
 
@@ -243,8 +242,8 @@ theorem accepted_raws_are_slices (pre rest : List Nat) (mb : Nat) (toks : List T
 def BufInv (mb : Nat) (b : Buf) : Prop :=
   b.start ≤ b.stop ∧ b.stop ≤ b.len ∧ b.len ≤ b.cap ∧ initCap ≤ b.cap ∧
   (mb > 0 → (b.exceeded = false → b.stop - b.start < mb) ∧
-            b.stop - b.start ≤ mb + b.over ∧
-            b.cap ≤ max initCap (4 * (mb + b.over)))
+            b.stop - b.start ≤ mb ∧
+            b.cap ≤ max initCap (4 * mb))
 
 theorem bufInv_init (mb : Nat) : BufInv mb Buf.init := by
   simp [BufInv, Buf.init, initCap]; omega
@@ -254,7 +253,8 @@ theorem bufInv_step (mb : Nat) (b : Buf) (op : BufOp) (hinv : BufInv mb b)
   obtain ⟨h1, h2, h3, h4, h5⟩ := hinv
   cases op with
   | refill n =>
-    simp only [BufOp.enabled, decide_eq_true_eq] at hen
+    simp only [BufOp.enabled, Bool.and_eq_true, Bool.not_eq_true', decide_eq_true_eq] at hen
+    obtain ⟨hex, hen⟩ := hen
     simp only [Buf.step, BufInv]
     unfold capAfter growCond growCap at *
     simp only [decide_eq_true_eq] at *
@@ -264,24 +264,20 @@ theorem bufInv_step (mb : Nat) (b : Buf) (op : BufOp) (hinv : BufInv mb b)
     · intro hm
       obtain ⟨h6, h7, h8⟩ := h5 hm
       refine ⟨by simpa using h6, by simpa using h7, ?_⟩
+      have := h6 hex
       split
       · simp only [initCap] at *; omega
       · exact h8
   | advance =>
-    simp only [BufOp.enabled, decide_eq_true_eq] at hen
+    simp only [BufOp.enabled, Bool.and_eq_true, Bool.not_eq_true', decide_eq_true_eq] at hen
+    obtain ⟨hex, hen⟩ := hen
     simp only [Buf.step, BufInv, exceededCond]
     refine ⟨by omega, by omega, h3, h4, ?_⟩
     intro hm
     obtain ⟨h6, h7, h8⟩ := h5 hm
-    cases hex : b.exceeded with
-    | true =>
-      simp only [Bool.true_or, reduceCtorEq, false_imp_iff, true_and, if_true]
-      refine ⟨by omega, ?_⟩
-      simp only [initCap] at *; omega
-    | false =>
-      have := h6 hex
-      simp only [Bool.false_or, decide_eq_false_iff_not, not_and, Nat.not_le, Bool.false_eq_true, if_false]
-      refine ⟨fun h => by have := h hm; omega, by omega, h8⟩
+    have := h6 hex
+    simp only [decide_eq_false_iff_not, not_and, Nat.not_le]
+    refine ⟨fun h => by have := h hm; omega, by omega, h8⟩
   | unread k =>
     simp only [BufOp.enabled, decide_eq_true_eq] at hen
     simp only [Buf.step, BufInv]
@@ -296,7 +292,6 @@ theorem bufInv_step (mb : Nat) (b : Buf) (op : BufOp) (hinv : BufInv mb b)
     obtain ⟨h6, h7, h8⟩ := h5 hm
     exact ⟨fun _ => by omega, by omega, h8⟩
 
-/-- `over` only counts reads made with the error already set. -/
 theorem bufInv_run (mb : Nat) (b b' : Buf) (ops : List BufOp) (hinv : BufInv mb b)
     (h : Buf.run mb b ops = some b') : BufInv mb b' := by
   induction ops generalizing b with
@@ -310,48 +305,22 @@ theorem bufInv_run (mb : Nat) (b b' : Buf) (ops : List BufOp) (hinv : BufInv mb 
 
 /-- MaxBuf as a counter invariant: along any execution of the buffer machine
 from the initial state, the bytes held for the current token never exceed
-`maxBuf` plus the number of `readByte` calls made after the error was already
-set, and the buffer capacity stays below `max 4096 (4·(maxBuf+over))`. -/
+`maxBuf`, stay strictly below it while no error is pending, and the buffer
+capacity stays below `max 4096 (4·maxBuf)`. -/
 theorem maxBuf_counter_invariant (mb : Nat) (ops : List BufOp) (b : Buf) (hmb : mb > 0)
     (h : Buf.run mb Buf.init ops = some b) :
-    b.stop - b.start ≤ mb + b.over ∧ b.cap ≤ max 4096 (4 * (mb + b.over)) ∧
+    b.stop - b.start ≤ mb ∧ b.cap ≤ max 4096 (4 * mb) ∧
     (b.exceeded = false → b.stop - b.start < mb) := by
   obtain ⟨_, _, _, _, h5⟩ := bufInv_run mb _ b ops (bufInv_init mb) h
   obtain ⟨h6, h7, h8⟩ := h5 hmb
   exact ⟨h7, h8, h6⟩
 
-/-- A run is *disciplined* when `readByte` is never called with the error set
-(its documented precondition). -/
-def Disciplined (mb : Nat) : Buf → List BufOp → Prop
-  | _, [] => True
-  | b, op :: ops => (match op with | .advance => b.exceeded = false | _ => True) ∧ Disciplined mb (b.step mb op) ops
-
-theorem over_zero_of_disciplined (mb : Nat) (b b' : Buf) (ops : List BufOp) (h0 : b.over = 0)
-    (hd : Disciplined mb b ops) (h : Buf.run mb b ops = some b') : b'.over = 0 := by
-  induction ops generalizing b with
-  | nil => simp only [Buf.run, Option.some.injEq] at h; subst h; exact h0
-  | cons op ops ih =>
-    simp only [Buf.run] at h
-    split at h
-    · simp only [Disciplined] at hd
-      refine ih (b.step mb op) ?_ hd.2 h
-      cases op <;> simp_all [Buf.step]
-    · simp at h
-
-/-- Under the documented precondition of `readByte` the limit is exact. -/
-theorem maxBuf_exact_when_disciplined (mb : Nat) (ops : List BufOp) (b : Buf) (hmb : mb > 0)
-    (hd : Disciplined mb Buf.init ops) (h : Buf.run mb Buf.init ops = some b) :
-    b.stop - b.start ≤ mb ∧ b.cap ≤ max 4096 (4 * mb) := by
-  have ho := over_zero_of_disciplined mb _ b ops rfl hd h
-  have := maxBuf_counter_invariant mb ops b hmb h
-  rw [ho] at this
-  exact ⟨by omega, by simpa using this.2.1⟩
-
-/-- The bound `mb + over` is attained when the precondition is ignored. -/
-theorem overshoot_reachable :
-    ∃ ops b, Buf.run 2 Buf.init ops = some b ∧ b.stop - b.start = 4 := by
-  refine ⟨[.refill 10, .advance, .advance, .advance, .advance], ?_⟩
-  exact ⟨_, rfl, rfl⟩
+/-- The limit is attained (and then the machine stops reading). -/
+theorem maxBuf_bound_tight :
+    ∃ ops b, Buf.run 2 Buf.init ops = some b ∧ b.stop - b.start = 2 ∧ b.exceeded = true ∧
+      (BufOp.advance).enabled b = false := by
+  refine ⟨[.refill 10, .advance, .advance], ?_⟩
+  exact ⟨_, rfl, rfl, rfl, rfl⟩
 
 /-! ### T-tie: the machine's arithmetic is the regenerated arithmetic of readByte -/
 
@@ -364,8 +333,8 @@ theorem gen_dOf_eq (b : Buf) : Gen.C39.dOf b.start b.stop = b.stop - b.start := 
 theorem gen_exceededCond_eq : Gen.C39.exceededCond = exceededCond := rfl
 theorem gen_refillCond_eq (b : Buf) (n : Nat) (h : (BufOp.refill n).enabled b = true) :
     Gen.C39.refillCond b.stop b.len = true := by
-  simp only [BufOp.enabled, decide_eq_true_eq] at h
-  simp [Gen.C39.refillCond, h.1]
+  simp only [BufOp.enabled, Bool.and_eq_true, decide_eq_true_eq] at h
+  simp [Gen.C39.refillCond, h.2.1]
 
 /-! ### Non-vacuity -/
 
@@ -375,8 +344,7 @@ example : checkRun 0 [120, 60, 97, 32] [⟨ttText, [120], 4096⟩] .eof [60, 97,
 example : checkRun 0 [120, 60, 97, 32] [⟨ttText, [120], 4096⟩] .eof [] [] = false := by decide
 example : checkRun 3 [120, 121, 122, 60] [⟨ttText, [120, 121, 122], 4096⟩] .maxbuf [] [60] = true := by decide
 example : checkRun 2 [120, 121, 122, 60] [⟨ttText, [120, 121, 122], 4096⟩] .maxbuf [] [60] = false := by decide
-example : Disciplined 3 Buf.init [.refill 10, .advance, .advance, .newToken, .advance] := by
-  simp [Disciplined, Buf.step, Buf.init, exceededCond]
+example : (Buf.run 3 Buf.init [.refill 10, .advance, .advance, .newToken, .advance]).isSome = true := by decide
 
 /-! ## Part C: the exact model of `Next` (D-tied to the real tokenizer) -/
 
